@@ -504,6 +504,43 @@ class Purge:
                 return False
         return True
 
+    # ------------------------------------------------------------------------------------------------------
+    # Two disciplines share the walk over an object's own link table:
+    #  * purge  (the object goes away: Rc::drop on a dead object, try_unwrap, make_mut's steal): every record naming
+    #    the object must be gone from every peer listed -- both kinds, by the entry's count (over-removal saturates);
+    #  * mirror (the object stays: a bulk `unadopt_all`-like API): what is removed from a peer must be exactly the
+    #    mirror image of the own entry that is given up (Forward(x):n <-> Backward(this):n in x's table), and no own
+    #    record may be thrown away without its mirror.
+    # In Rc::drop the purge is judged at once.  In an API entry the walk only records what it found; the verdict is
+    # given where it is known which of the two applies: at a kill / discard of the whole table (purge), or at return
+    # with the object still alive and its table in place (mirror).
+    def _elem_exprs(self, eng, inner, E):
+        """(link, count) expressions of a walk element, by reference (`(&Link, &usize)`) or by value."""
+        try:
+            from rules_trace import elem_shape
+            dst = eng.fn.blocks[inner[1]]["term"]["dst"]
+            shape = elem_shape(eng.fn.locals[dst["l"]]["ty"]["s"]) if not dst["p"] else None
+        except Exception:
+            shape = None
+        if shape is not None and shape[1] is not None:
+            return shape[0](E), shape[1](E)
+        return mk_deref(mk_field(E, "0", "")), mk_deref(mk_field(E, "1", ""))
+
+    def _pred_kinds(self, closure, negate=False):
+        """Kinds of links for which a two-argument table predicate (`extract_if` / `retain`) holds; None if it looks
+        at anything but the kind."""
+        if self.closures is None:
+            return None
+        from rules_trace import _admitted_kinds, ALL_KINDS
+        L = ("param", 2)
+        cl = self.closures.run(closure, params={2: ("ref", ("sym", "link")), 3: ("ref", ("sym", "count"))})
+        if cl is None or cl["effects"]:
+            return None
+        ks = _admitted_kinds(cl, mk_field(("sym", "link"), "kind", LINK))
+        if ks is None:
+            return None
+        return frozenset(ALL_KINDS - ks) if negate else frozenset(ks)
+
     def on_variant(self, eng, st, inner, v, b):
         if inner[0] != "call" or inner[2] != "core::iter::Iterator::next":
             return None
@@ -514,53 +551,110 @@ class Purge:
         # object while it still holds the sole strong reference
         if (self.entry_kind == "rc_drop" and not (st.strong(self.self_box) <= DEAD)) or st.empty(self.self_box) is True:
             return None
+        api = self.entry_kind != "rc_drop"
         if v == "1":
             from rules_trace import adapted_elem, _strip_outer
             ae = adapted_elem(self.closures, inner) if self.closures is not None else None
             # the walk is described over the entry of the underlying table iterator, whatever the adaptors make of it
             # (when no adaptor changes the element, the interpreter names it by the adapted `next` call itself)
             E = ae[1] if ae is not None and ae[2] else mk_field(("variant", inner, "Some", 1), "0", "")
-            peer = mk_field(mk_deref(mk_field(E, "0", "")), "ptr", LINK)
+            if ae is not None and ae[2]:
+                link, cnt = mk_deref(mk_field(E, "0", "")), mk_deref(mk_field(E, "1", ""))
+            else:
+                link, cnt = self._elem_exprs(eng, inner, E)
+            peer = mk_field(link, "ptr", LINK)
             self.elems.add(b)
             eng.obl("SYM-3", "peer-entry", b)
+            restricted = []
             for i, (name, cargs) in enumerate(src[-1]):
                 ok = False
-                if name in ("map", "copied", "cloned", "inspect", "by_ref", "peekable", "fuse"):
-                    ok = ae is not None    # one element out per element in
+                if name in ("map", "copied", "cloned", "inspect", "by_ref", "peekable", "fuse", "collect"):
+                    ok = ae is not None or name == "collect"   # one element out per element in
                 elif name in ("filter", "filter_map") and cargs and self.closures is not None:
                     below = ("call", inner[1], "core::iter::Iterator::next", (_strip_outer(inner[3][0], i + 1),))
                     ae_b = adapted_elem(self.closures, below)
                     if ae_b is not None:
                         ok = self._skips_only_self(cargs[0], ae_b[0] if (ae is not None and ae[2]) else E, peer, name)
                 if not ok:
-                    eng.violate("SYM-3", "purge-iteration-restricted:%s" % name, "the purge of a dying object walks its link table through `%s`, which can skip peers other than the object itself: skipped peers keep records naming freed memory" % name, b, st)
-            return add(st, ("purge_pending", E, b))
+                    restricted.append(name)
+            if src[2] not in ("iter", "into_iter", "iter_mut", "keys", "values") and src[2] is not None:
+                restricted.append(src[2])      # `extract_if(pred)` / `drain()` as the source: not the whole table as it stands
+            for name in restricted:
+                msg = "the purge of a dying object walks its link table through `%s`, which can skip peers other than the object itself: skipped peers keep records naming freed memory" % name
+                if api:
+                    st = add(st, ("purge_defect", "purge-iteration-restricted:%s" % name, msg, b))
+                else:
+                    eng.violate("SYM-3", "purge-iteration-restricted:%s" % name, msg, b, st)
+            return add(st, ("purge_pending", E, b, link, cnt))
         if v == "0":
-            return add(st, ("purged", self.self_box))
+            if api and any(f[0] == "purge_defect" for f in st.flags):
+                return add(st, ("walk_done", self.self_box))
+            return add(st, ("purged", self.self_box), ("walk_done", self.self_box))
         return None
 
     def on_site_reexec(self, eng, st, site):
         for f in st.flags:
             if f[0] == "purge_pending" and mentions(f[1], lambda x: x[0] == "call" and x[1] == site):
-                self._check(eng, st, f, site)
-        return None
+                st = self._check(eng, st, f, site)
+        return st
 
     def _check(self, eng, st, f, site):
-        E = f[1]
-        peer = mk_field(mk_deref(mk_field(E, "0", "")), "ptr", LINK)
-        cnt = mk_deref(mk_field(E, "1", ""))
+        from rules_trace import known_kind
+        E, link, cnt = f[1], f[3], f[4]
+        peer = mk_field(link, "ptr", LINK)
         if ("eq", self.self_box, peer) in st.rel or ("eq", peer, self.self_box) in st.rel:
-            return  # the entry names the dying object itself
-        got = set()
+            return st  # the entry names the object itself
+        api = self.entry_kind != "rc_drop"
+        got = {}
+        odd = []
         for g in st.flags:
             if g[0] == "top" and g[1] == "sub" and g[2] == peer and g[4] == self.self_box:
                 if g[5] == cnt or g[5] == ABSENT:
-                    got.add(g[3])
+                    got[g[3]] = g[5]
                 else:
-                    eng.violate("SYM-3", "purge-amount", "the dying object's records are purged from a peer by %s instead of the recorded multiplicity" % (show(g[5]) if g[5] else "an unknown amount"), site, st)
+                    odd.append(g)
+        defects = []
+        for g in odd:
+            defects.append(("purge-amount", "the dying object's records are purged from a peer by %s instead of the recorded multiplicity" % (show(g[5]) if g[5] else "an unknown amount")))
         for need in ("0", "1"):
             if need not in got:
-                eng.violate("SYM-3", "purge-incomplete:%s" % KIND_NAMES[need], "a dying object with adoption links does not remove its %s records from a peer named in its table; the peer keeps a record naming freed memory" % KIND_NAMES[need], site, st)
+                defects.append(("purge-incomplete:%s" % KIND_NAMES[need], "a dying object with adoption links does not remove its %s records from a peer named in its table; the peer keeps a record naming freed memory" % KIND_NAMES[need]))
+        if not api:
+            for key, msg in defects:
+                eng.violate("SYM-3", key, msg, site, st)
+            return st
+        if defects:
+            st = add(st, *[("purge_defect", key, msg, site) for key, msg in defects])
+        # ---- the same element judged as a mirrored removal
+        k = known_kind(st, mk_field(link, "kind", LINK))
+        mirror = {"0": "1", "1": "0"}
+        fl = []
+        for g in odd:
+            fl.append(("mirror_bad", "mirror-amount", "records naming %s are removed from a peer's table by %s, not by the multiplicity of the own record that is given up" % (show(self.self_box), show(g[5]) if g[5] else "an unknown amount"), site))
+        for kind in got:
+            if k is None or kind != mirror.get(k):
+                fl.append(("mirror_bad", "mirror-kind:%s" % KIND_NAMES.get(kind, kind), "the %s record naming %s is removed from a peer's table while walking an own record of kind %s: it is not that record's mirror image (the peer loses a record whose counterpart stays)" % (
+                    KIND_NAMES.get(kind, kind), show(self.self_box), KIND_NAMES.get(k, "unknown")), site))
+        if k in mirror:
+            fl.append(("mirrored", k) if mirror[k] in got else ("unmirrored", k))
+        elif k is None:
+            excluded = {g[2] for g in st.flags if g[0] == "notvar" and g[1] == mk_field(link, "kind", LINK)}
+            for pk in ("0", "1"):
+                if pk not in excluded and mirror[pk] not in got:
+                    fl.append(("unmirrored", pk))
+        # the own record given up entry by entry (`own.remove(link, n)`)
+        for g in st.flags:
+            if g[0] == "top" and g[1] == "sub" and g[2] == self.self_box and g[4] == peer and g[3] in mirror and mirror[g[3]] not in got:
+                fl.append(("mirror_bad", "own-record-removed-without-mirror:%s" % KIND_NAMES[g[3]], "the own %s record for a peer is removed while the peer keeps its %s record naming %s" % (KIND_NAMES[g[3]], KIND_NAMES[mirror[g[3]]], show(self.self_box)), site))
+        return add(st, *fl) if fl else st
+
+    def _raise_purge_defects(self, eng, st, b):
+        hit = False
+        for f in st.flags:
+            if f[0] == "purge_defect":
+                hit = True
+                eng.violate("SYM-3", f[1], f[2], f[3], st)
+        return hit
 
     def on_discard(self, eng, ev, st):
         return self._discard(eng, ev, st)
@@ -573,13 +667,56 @@ class Purge:
             return None
         eng.obl("SYM-3", "discard", ev.b)
         if st.empty(b) is not True and ("purged", b) not in st.flags:
-            eng.violate("SYM-3", "discard-without-purge:%s" % self.entry_name, "%s discards the adoption records of %s without first removing the mirror records from its peers' tables (and without seeing the table empty): peers keep links naming an object that no longer lists them" % (self.entry_name, show(b)), ev.b, st)
+            if not (b == self.self_box and self._raise_purge_defects(eng, st, ev.b)):
+                eng.violate("SYM-3", "discard-without-purge:%s" % self.entry_name, "%s discards the adoption records of %s without first removing the mirror records from its peers' tables (and without seeing the table empty): peers keep links naming an object that no longer lists them" % (self.entry_name, show(b)), ev.b, st)
         return None
 
     def on_tbl(self, eng, ev, st):
-        if ev.op in ("clear", "drain", "retain") and ev.get("table") is not None and self.entry_kind != "rc_drop":
+        if ev.get("table") is None or self.entry_kind == "rc_drop":
+            return None
+        if ev.op in ("clear", "drain"):
             ev2 = Ev("discard", ev.b, ev.si, box=ev.table)
             return self._discard(eng, ev2, st)
+        if ev.op in ("retain", "extract_if") and ev.table == self.self_box:
+            # a bulk removal restricted by a predicate on the kind: judged as a mirrored removal at return
+            ks = self._pred_kinds(ev.args[1], negate=(ev.op == "retain")) if len(ev.args) > 1 else None
+            if ks is None:
+                ev2 = Ev("discard", ev.b, ev.si, box=ev.table)
+                return self._discard(eng, ev2, st)
+            eng.obl("SYM-3", "bulk-removal", ev.b)
+            return add(st, ("own_bulk", ks, ev.b))
+        if ev.op in ("retain", "extract_if"):
+            ev2 = Ev("discard", ev.b, ev.si, box=ev.table)
+            return self._discard(eng, ev2, st)
+        return None
+
+    def on_set(self, eng, ev, st):
+        # the last strong reference is taken outside Rc::drop: the purge is what applies (KILL-1 asks for it)
+        if self.entry_kind != "rc_drop" and ev.field == "strong" and ev.cls == "dec" and ev.box == self.self_box and st.strong(ev.box) == frozenset("O"):
+            if ("purged", self.self_box) not in st.flags:
+                self._raise_purge_defects(eng, st, ev.b)
+        return None
+
+    def on_return(self, eng, ev, st):
+        if self.entry_kind == "rc_drop" or any(f[0] == "unwinding" for f in st.flags):
+            return None
+        b = self.self_box
+        given_up = ("killed", b) in st.flags or any(f[0] in ("dropped", "mv", "xfer", "held") and b in f and "links" in f for f in st.flags)
+        if given_up:
+            return None
+        # the object is still there with its table: mirrored removal
+        for f in st.flags:
+            if f[0] == "mirror_bad":
+                eng.violate("SYM-3", f[1], f[2], f[3], st)
+        bulk = [f for f in st.flags if f[0] == "own_bulk"]
+        for f in bulk:
+            for k in sorted(f[1]):
+                if k not in ("0", "1"):
+                    continue
+                walked = ("walk_done", b) in st.flags
+                if ("unmirrored", k) in st.flags or not walked:
+                    eng.violate("SYM-3", "records-removed-without-mirror:%s" % KIND_NAMES[k], "%s removes the %s records of %s from its own table without removing their mirror images from the peers' tables (the peers keep records whose counterpart is gone: the pairing the trace relies on is broken)" % (
+                        self.entry_name, KIND_NAMES[k], show(b)), f[2], st)
         return None
 
     def on_moveout(self, eng, ev, st):
@@ -588,6 +725,32 @@ class Purge:
         if ev.box == self.self_box and st.strong(ev.box) <= DEAD and st.empty(ev.box) is not True and not is_elem_box(ev.box):
             if ("g_nonempty",) in st.flags and ("purged", self.self_box) not in st.flags:
                 eng.violate("SYM-3", "destroy-without-purge", "an object with adoption links is torn down without first purging itself from its peers' tables", ev.b, st)
+        return None
+
+
+class LoopbackSelect:
+    """SYM-5 (sibling clause): adopt_unchecked files a self-adoption under a Loopback record exactly when its two `&Rc`
+    arguments are the same handle object (`ptr::eq(this, other)`).  Any other function of two handles that
+    writes the Loopback record of the pair must select it by the same test: selecting it by another one (e.g. by
+    allocation identity, `Rc::ptr_eq`) looks for a record adopt never wrote for that pair of handles, and misses the
+    Forward/Backward pair it did write."""
+    id = "SYM"
+
+    def __init__(self, name, boxes):
+        self.name = name
+        self.boxes = boxes
+
+    def on_tbl(self, eng, ev, st):
+        if ev.get("table") is None or len(ev.get("args") or ()) < 2 or ev.op not in ("remove", "insert", "get_mut", "entry", "remove_entry"):
+            return None     # (read-only views may look at every kind of record)
+        kind, target = link_key(ev.args[1], st)
+        if kind != "2":
+            return None
+        eng.obl("SYM-5", "loopback-selection", ev.b)
+        p1, p2 = ("param", 1), ("param", 2)
+        same_handle = ("eq", p1, p2) in st.rel or ("eq", p2, p1) in st.rel
+        if not same_handle:
+            eng.violate("SYM-5", "loopback-selected-by-another-test:%s" % self.name, "%s touches the Loopback record of a pair of handles on a path that has not established `ptr::eq(this, other)` on the handles themselves, the test by which adopt_unchecked files a self-adoption under that record: for two handles to one object adopt writes a Forward/Backward pair, which this function then never finds" % self.name, ev.b, st)
         return None
 
 
